@@ -48,7 +48,10 @@ class Rec(BaseWriter):
         self.chunks.append(statement)
 
     def text(self) -> str:
-        return b"".join(self.chunks).decode("utf-8")
+        out = ""
+        for c in self.chunks:
+            out = out + c.decode("utf-8")
+        return out
 
     def clear(self) -> None:
         self.chunks.clear()
